@@ -13,3 +13,96 @@ macro_rules! lib_only {
         }
     };
 }
+include!("/verif/kani/common.rs");
+
+fn truth(op: CmpOperator, a: i64, b: i64) -> bool {
+    match op {
+        CmpOperator::Eq | CmpOperator::In => a == b,
+        CmpOperator::Lt => a < b,
+        CmpOperator::Le => a <= b,
+        CmpOperator::Gt => a > b,
+        CmpOperator::Ge => a >= b,
+        _ => false,
+    }
+}
+
+/// 0 = success, 1 = fail, 2 = not comparable, 3 = unresolved side, 4 = other shape
+fn outcome(r: &crate::rules::Result<EvalResult>) -> u8 {
+    match r {
+        Ok(EvalResult::Result(v)) => {
+            if v.len() != 1 {
+                return 4;
+            }
+            match &v[0] {
+                ValueEvalResult::ComparisonResult(ComparisonResult::Success(_)) => 0,
+                ValueEvalResult::ComparisonResult(ComparisonResult::Fail(_)) => 1,
+                ValueEvalResult::ComparisonResult(ComparisonResult::NotComparable(_)) => 2,
+                ValueEvalResult::ComparisonResult(ComparisonResult::RhsUnresolved(_, _)) => 3,
+                ValueEvalResult::LhsUnresolved(_) => 3,
+            }
+        }
+        _ => 4,
+    }
+}
+
+/// C03/C13: on a single comparable scalar against a scalar literal the operator-level `not` is the pointwise complement
+fn flip_scalar(op: CmpOperator) {
+    let a: i64 = kani::any();
+    let b: i64 = kani::any();
+    let not: bool = kani::any();
+    let lhs = vec![qr_int(a)];
+    let rhs = vec![qr_lit_int(b)];
+    let r = (op, not).compare(&lhs, &rhs);
+    let want = truth(op, a, b) != not;
+    kani::assert(outcome(&r) == if want { 0 } else { 1 }, "outcome == truth(op)(x, k) XOR not");
+    std::mem::forget(r);
+    std::mem::forget((lhs, rhs));
+}
+
+macro_rules! flip_harness {
+    ($name:ident, $op:expr) => {
+        #[cfg_attr(kani, kani::proof)]
+        #[cfg_attr(kani, kani::unwind(3))]
+        #[cfg_attr(kani, kani::stub(alloc::fmt::format, fmt_stub))]
+        #[cfg_attr(kani, kani::stub(fancy_regex::Regex::new, regex_new_stub))]
+        #[cfg_attr(verif_replay, test)]
+        fn $name() {
+            lib_only!();
+            flip_scalar($op);
+        }
+    };
+}
+flip_harness!(k_flip_eq, CmpOperator::Eq);
+flip_harness!(k_flip_lt, CmpOperator::Lt);
+flip_harness!(k_flip_le, CmpOperator::Le);
+flip_harness!(k_flip_gt, CmpOperator::Gt);
+flip_harness!(k_flip_ge, CmpOperator::Ge);
+flip_harness!(k_flip_in, CmpOperator::In);
+
+/// values of different types: NotComparable (FAIL) whatever the polarity; unresolved lhs stays unresolved (FAIL)
+#[cfg_attr(kani, kani::proof)]
+#[cfg_attr(kani, kani::unwind(3))]
+#[cfg_attr(kani, kani::stub(alloc::fmt::format, fmt_stub))]
+#[cfg_attr(kani, kani::stub(fancy_regex::Regex::new, regex_new_stub))]
+#[cfg_attr(verif_replay, test)]
+fn k_flip_not_comparable() {
+    lib_only!();
+    let not: bool = kani::any();
+    let lhs = vec![qr_int(kani::any())];
+    let rhs = vec![crate::rules::QueryResult::Literal(Rc::new(PathAwareValue::Bool((Path::root(), kani::any()))))];
+    let r = (CmpOperator::Lt, not).compare(&lhs, &rhs);
+    kani::assert(outcome(&r) == 2, "different types are not comparable, with or without not");
+    std::mem::forget(r);
+    let r = (CmpOperator::Eq, not).compare(&lhs, &rhs);
+    kani::assert(outcome(&r) == 2, "different types never satisfy == or !=");
+    std::mem::forget(r);
+    let ul = vec![qr_unresolved()];
+    let r = (CmpOperator::Eq, not).compare(&ul, &rhs);
+    kani::assert(outcome(&r) == 3, "an unresolved left-hand side stays unresolved under not");
+    std::mem::forget(r);
+    let empty: Vec<QueryResult> = Vec::new();
+    let r = (CmpOperator::Eq, not).compare(&empty, &rhs);
+    kani::assert(matches!(r, Ok(EvalResult::Skip)), "an empty selection is Skip, with or without not");
+    std::mem::forget(r);
+    std::mem::forget((lhs, rhs, ul, empty));
+}
